@@ -209,6 +209,18 @@ def gen_cleanup2():
             yield d_ + " " + u + show, ["c(1). d(1). e(1,2).", "c(1..2). d(2..3). e(2,1). e(3,3).", "d(1..2). e(1,1)."]
 
 
+def gen_cleanup3():
+    """an INPUT predicate that the program also derives itself (the instance adds more atoms of it): what a rule
+    of the program implies about it does not hold for the atoms that come from the instance"""
+    show = " #show r/1. #show r/2."
+    defs = ["b(X) :- c(X).", "b(X) :- c(X), d(X).", "b(X,Y) :- c(X), d(Y).", "{b(X)} :- c(X)."]
+    uses = ["r(X) :- b(X), c(X).", "r(X) :- b(X), not c(X).", "r(X) :- b(X), d(X).", "r(X,Y) :- b(X,Y), c(X).", "r(X) :- d(X), not b(X), not c(X).", "r(X) :- b(X), c(X), d(X)."]
+    for d_ in defs:
+        for u in uses:
+            yield d_ + " " + u + show, ["c(1). d(1). b(2). b(2,2).", "c(1..2). d(2..3). b(3). b(3,1).", "d(1..2). b(1). b(1,2)."], [("b", 1), ("b", 2), ("c", 1), ("d", 1)]
+            yield d_ + " " + u + show, ["c(1). d(1).", "c(1..2). d(2..3).", "d(1..2)."], [("c", 1), ("d", 1)]
+
+
 def gen_projection2():
     show = " #show h/0. #show h/1. #show h/2. #show a/2."
     bodies = ["a(A,B), b(B,C), c(C,D), d(D)", "a(A,B), b(B,C), not c(C,A)", "a(A,B), b(B,C), C != A", "a(A,B), b(B,_), d(A)", "a(A,B), b(C,D), B < C", "a(A,B), b(B,C), N = #count{X : c(X,C)}, N > 0", "a(A,B), b(B,C), d(X) : c(X,C)", "a(A,B), b(B,C), not d(C), not d(B)", "a(A,B), b(B,C), c(C,D), D = A + 1", "a(A,B), 1 {b(B,C) : d(C)}"]
@@ -332,7 +344,7 @@ GENERATORS = {
 }
 # second-wave schemas (run in addition to the first wave of the same trait)
 EXTRA = {
-    "cleanup": [gen_cleanup2],
+    "cleanup": [gen_cleanup2, gen_cleanup3],
     "projection": [gen_projection2],
     "unused": [gen_unused2, gen_unused3],
     "math": [gen_math2],
